@@ -107,8 +107,12 @@ pub enum Tgt {
     SameLen,
     Big,
     Tomb,
+    /// owns a (large) block but has never held an element
+    EmptyBig,
+    /// owns a block, every element removed again (all removed-slot markers or cleared)
+    Emptied,
 }
-pub const TARGETS: &[Tgt] = &[Tgt::New, Tgt::One, Tgt::SameLen, Tgt::Big, Tgt::Tomb];
+pub const TARGETS: &[Tgt] = &[Tgt::New, Tgt::One, Tgt::SameLen, Tgt::Big, Tgt::Tomb, Tgt::EmptyBig, Tgt::Emptied];
 
 #[derive(Clone, Copy, Debug, PartialEq, Eq, Hash, Serialize, Deserialize)]
 pub enum MapOp {
@@ -875,7 +879,7 @@ impl<K: KeyT, V: ValT> MapHarness<K, V> {
                 let len = sut.model.len();
                 let u = self.cfg.universe as usize;
                 let mut tgt: Map<K, V> = match t {
-                    Tgt::Big => Map::with_capacity_and_hasher_in(4 * len + 8, PlanBuild::default(), CheckAlloc),
+                    Tgt::Big | Tgt::EmptyBig => Map::with_capacity_and_hasher_in(4 * len + 8, PlanBuild::default(), CheckAlloc),
                     _ => Map::default(),
                 };
                 let nkeys = match t {
@@ -883,7 +887,8 @@ impl<K: KeyT, V: ValT> MapHarness<K, V> {
                     Tgt::One => 1,
                     Tgt::SameLen => len,
                     Tgt::Big => 2,
-                    Tgt::Tomb => u,
+                    Tgt::Tomb | Tgt::Emptied => u,
+                    Tgt::EmptyBig => 0,
                 };
                 for i in 0..nkeys.min(u) {
                     let (t1, t2) = (sut.tok(), sut.tok());
@@ -891,6 +896,11 @@ impl<K: KeyT, V: ValT> MapHarness<K, V> {
                 }
                 if t == Tgt::Tomb {
                     for i in 0..u / 2 {
+                        tgt.remove(&KeyRef(i as u8));
+                    }
+                }
+                if t == Tgt::Emptied {
+                    for i in 0..u {
                         tgt.remove(&KeyRef(i as u8));
                     }
                 }
